@@ -138,6 +138,12 @@ func decodeUnicodeRune(s *Stream, p unsafe.Pointer) (rune, int64, unsafe.Pointer
 		if s.buf[s.cursor+defaultOffset] != '\\' || s.buf[s.cursor+defaultOffset+1] != 'u' {
 			return unicode.ReplacementChar, defaultOffset, p, nil
 		}
+		for _, c := range s.buf[s.cursor+defaultOffset+2 : s.cursor+surrogateOffset] {
+			if !(('0' <= c && c <= '9') || ('a' <= c && c <= 'f') || ('A' <= c && c <= 'F')) {
+				// not a second escape: the first one is a lone surrogate, the rest is checked on its own
+				return unicode.ReplacementChar, defaultOffset, p, nil
+			}
+		}
 		r2 := unicodeToRune(s.buf[s.cursor+defaultOffset+2 : s.cursor+surrogateOffset])
 		if r := utf16.DecodeRune(r, r2); r != unicode.ReplacementChar {
 			return r, surrogateOffset, p, nil
@@ -250,7 +256,7 @@ func stringBytes(s *Stream) ([]byte, error) {
 			s.buf = append(append(append([]byte{}, s.buf[:cursor]...), runeErrBytes...), s.buf[cursor+1:]...)
 			_, _, p = s.stat()
 			cursor += runeErrBytesLen
-			s.length += runeErrBytesLen
+			s.length += runeErrBytesLen - 1 // one byte is replaced by three
 			continue
 		case nul:
 			s.cursor = cursor
@@ -289,7 +295,7 @@ func stringBytes(s *Stream) ([]byte, error) {
 			if r == utf8.RuneError {
 				s.buf = append(append(append([]byte{}, s.buf[:cursor]...), runeErrBytes...), s.buf[cursor+1:]...)
 				cursor += runeErrBytesLen
-				s.length += runeErrBytesLen
+				s.length += runeErrBytesLen - 1 // one byte is replaced by three
 				_, _, p = s.stat()
 			} else {
 				cursor += int64(size)
